@@ -1475,8 +1475,13 @@ class Container:
 
         required_quantity = quantity - current_quantity
         if required_quantity < 0:
-            # tolerate float noise when the container already holds exactly the requested quantity
-            if required_quantity < -1e-9 * current_quantity:
+            # Amounts are stored rounded to internal_precision, so the current quantity is only known to within
+            # one rounding step per substance: a smaller excess means the target is already met.
+            resolution = sum(Unit.convert_from(substance, 10 ** -config.internal_precision,
+                                               'U' if substance.is_enzyme() else config.moles_storage_unit,
+                                               quantity_unit)
+                             for substance in self.contents) + 1e-9 * current_quantity
+            if -required_quantity > resolution:
                 raise ValueError("Container already holds more than the requested quantity.")
             required_quantity = 0.0
         result = self._add(solvent, f"{required_quantity} {quantity_unit}")
